@@ -151,7 +151,7 @@ func checkC02(c *Ctx) {
 	rejected := 0
 	nprog := 0
 	distinct := map[string]bool{}
-	sample4 := 500
+	sample4 := 2500
 	if !c.Quick() {
 		sample4 = 1 << 30
 	}
